@@ -1,13 +1,41 @@
 import SFV.Driver.Json
 import SFV.Model.Circuit
+import SFV.Model.Compare
 namespace SFV.Drv
 open Lean SFV
+
+def asPar (j : Json) : R Par := do
+  match j.getObjVal? "m" with
+  | .ok m => do
+    let m ← m.getNat?
+    let k ← asRat (← j.getObjVal? "k")
+    pure (.meas m k)
+  | .error _ => do
+    let q ← asRat (← j.getObjVal? "n")
+    pure (.num q)
 
 def asCmd (j : Json) : R Cmd := do
   let id ← getNat j "id"
   let cls := (getStr j "cls").toOption.getD ""
+  let pars ← match getArr j "pars" with
+    | .ok a => a.mapM asPar
+    | .error _ => pure []
+  let sel ← match j.getObjVal? "sel" with
+    | .ok (Json.arr a) => do
+      let l ← a.toList.mapM asRat
+      pure (some l)
+    | _ => pure none
   pure { id := id, cls := cls, regs := getNatListD j "regs", deps := getNatListD j "deps",
-         marked := getBoolD j "marked" false }
+         marked := getBoolD j "marked" false, pars := pars, dagger := getBoolD j "dagger" false,
+         sel := sel }
+
+def asReg (j : Json) : R (List (Nat × Bool)) := do
+  let a ← j.getArr?
+  a.toList.mapM fun x => do
+    let p ← x.getArr?
+    match p.toList with
+    | [i, b] => do pure ((← i.getNat?), (← b.getBool?))
+    | _ => throw "reg entry"
 
 def getCmds (j : Json) (k : String) : R (List Cmd) := do
   let a ← getArr j k
@@ -57,6 +85,18 @@ def k1 (op : String) (j : Json) : Option (R Json) :=
     match gbsCollect a b c newId with
     | .error e => pure <| Json.mkObj [("err", Json.str (gbsErrStr e))]
     | .ok out => pure <| Json.mkObj [("ok", jarr (out.map fun c => jarr [jnat c.id, natList c.regs]))]
+  | "programEq" => some do
+    let l1 ← getCmds j "l1"
+    let l2 ← getCmds j "l2"
+    let t1 ← getStr j "t1"
+    let t2 ← getStr j "t2"
+    let r1 ← asReg (← j.getObjVal? "r1")
+    let r2 ← asReg (← j.getObjVal? "r2")
+    pure <| Json.bool (programEq t1 t2 r1 r2 l1 l2)
+  | "programEquiv" => some do
+    let l1 ← getCmds j "l1"
+    let l2 ← getCmds j "l2"
+    pure <| Json.bool (programEquiv l1 l2)
   | _ => none
 
 end SFV.Drv
